@@ -1539,6 +1539,11 @@ def render_scope(sp, answers):
             stm = []
             if a_var[1] in ('obj', 'enum'):
                 stm.append(f'printf("{n} %d\\n", (int){n});'); expect.append(f'{n} {a_var[2]}')
+                # the same binding where the PARSER has to know whether the identifier is a type name (after `(`, in sizeof,
+                # at the start of a statement): an inner object / enumerator hides an outer typedef name there too (6.2.1p4)
+                stm.append(f'printf("{n} p %d %d\\n", (int)sizeof({n}), (int)(({n}) - 1 + 1));'); expect.append(f'{n} p 4 {a_var[2]}')
+                if a_var[1] == 'obj':
+                    stm.append(f'{n} = ({n}) + 0;')
             elif a_var[1] == 'typedef':
                 stm.append(f'printf("{n} %d\\n", (int)sizeof({n}));'); expect.append(f'{n} {a_var[2]}')
             if a_tag[1] != 'none':
